@@ -1482,6 +1482,36 @@ def reuse_names(rng, prog):
     return out
 
 
+def reuse_loop_vars(body, depth=0):
+    """Consistent renaming: the loop variables of all loops at the same loop-nesting depth get the same name
+    (sibling loops re-use the name of a loop that has ended; nested loops get different names)."""
+    out = []
+    for s in body:
+        k = s[0]
+        if k == "for3":
+            if s[1] is not None and s[1][0] == "vardef" and len(s[1][2]) == 1:
+                s = _subst_stmt(s, {s[1][2][0]: "k%d" % depth})
+            s = ("for3", s[1], s[2], s[3], reuse_loop_vars(s[4], depth + 1))
+        elif k == "forrange":
+            m = {s[1]: "r%d" % depth}
+            if s[2]:
+                m[s[2]] = "e%d" % depth
+            s = _subst_stmt(s, m)
+            s = ("forrange", s[1], s[2], s[3], reuse_loop_vars(s[4], depth + 1))
+        elif k == "forcond":
+            s = ("forcond", s[1], reuse_loop_vars(s[2], depth + 1))
+        elif k == "forever":
+            s = ("forever", reuse_loop_vars(s[1], depth + 1))
+        elif k == "if":
+            s = ("if", [(c, reuse_loop_vars(b, depth)) for c, b in s[1]], None if s[2] is None else reuse_loop_vars(s[2], depth))
+        elif k == "switch":
+            s = ("switch", s[1], [(c, reuse_loop_vars(b, depth)) for c, b in s[2]], None if s[3] is None else reuse_loop_vars(s[3], depth))
+        elif k == "func":
+            s = ("func", s[1], s[2], s[3], reuse_loop_vars(s[4], 0))
+        out.append(s)
+    return out
+
+
 def add_tracers(prog):
     """C04: every function announces itself (name and scalar arguments) when it runs."""
     out = []
